@@ -221,6 +221,31 @@ def unit_changes(unit):
         base = Vector(list(vals))
         f0 = base.fingerprint()
         t0 = Table([Vector(list(vals), name="x"), Vector(list(range(n)), name="y")]).fingerprint()
+        # the fingerprint is a function of the contents only: equal for the same contents built through every route
+        from mc import provenance
+        for ri, route in enumerate(provenance.VECTOR_ROUTES):
+            r2, vv = provenance.vector_variant(vals, None, ri)
+            if r2 != route:
+                continue
+            agg.evals += 1; agg.transitions += 1; agg.compared += 1
+            for warm in (False, True):
+                if warm:
+                    vv.fingerprint()
+                if vv.fingerprint() != f0:
+                    agg.violation(V("fingerprint.vector", "depends-on-how-the-vector-was-built", {"values": vals, "route": route}))
+                    break
+            else:
+                agg.outcomes["route-independent"] += 1
+        tcols = [("x", list(vals)), ("y", list(range(n)))]
+        for ri, route in enumerate(provenance.TABLE_ROUTES):
+            r2, tv = provenance.table_variant(tcols, ri)
+            if r2 != route:
+                continue
+            agg.evals += 1; agg.transitions += 1; agg.compared += 1
+            if tv.fingerprint() != t0 or tv.fingerprint() != t0:
+                agg.violation(V("fingerprint.table", "depends-on-how-the-table-was-built", {"values": vals, "route": route}))
+            else:
+                agg.outcomes["route-independent"] += 1
         for i in range(n):
             for new in ALPHA:
                 if h(new) == h(vals[i]):
